@@ -531,6 +531,13 @@ def literal_batches(ctx, quick):
             for t in itertools.product(" /*x,", repeat=n):
                 b.lines.append(rd_line(kind, 0, tok, "".join(t)))
                 b.meta.append(("rdc", kind))
+        # the recovery loop of CheckRemainingInput ends with the record (fixes/C05-15): `;` outside a string literal
+        for n in range(1, 5 if quick else 7):
+            for t in itertools.product("x;',", repeat=n):
+                if ";" not in t:
+                    continue
+                b.lines.append(rd_line(kind, 0, tok, "".join(t)))
+                b.meta.append(("rdc", kind))
     out.append(b)
     # a comment where the value should be (STEPattribute::STEPread called directly; the file reader strips leading comments)
     b = Batch("comment-in-place-of-value")
